@@ -1,5 +1,212 @@
-import Spec.Files
+import Lemmas.Files.Walk
+import Lemmas.Files.Load
+import Lemmas.Files.RevMap
+/-!
+# C19 — every revision file in the configured locations is loaded exactly once
+
+Theorems about `Model.Files.load` (mirror of `ScriptDirectory._load_revisions` /
+`Script._list_py_dir` / `Script._from_filename` and of the duplicate bookkeeping in
+`RevisionMap._revision_map`) against `Spec.Files.Expected`, for **every** abstract filesystem
+(`FS.node`, `FS.exists_` arbitrary functions), every number and shape of version locations
+(arbitrary `Dir` trees, overlapping or not, entries resolving to arbitrary canonical files), and
+both settings of `sourceless` and `recursive_version_locations`.
+-/
 namespace C19
-open Model.Files Spec.Files
+open Model.Files Spec.Files Lemmas.Files
+
+theorem load_ok {fs : FS} {cfg : Cfg} {locs : List Dir} {r : Result} (h : load fs cfg locs = .ok r) :
+    loadLoop fs cfg (allListed cfg locs) [] = .ok (r.loaded, r.twice) ∧
+    r.keys = (revMapLoop r.loaded []).1 ∧ r.dupWarn = (revMapLoop r.loaded []).2 := by
+  unfold load at h
+  cases hl : loadLoop fs cfg (allListed cfg locs) [] with
+  | error x => rw [hl] at h; cases h
+  | ok p =>
+    obtain ⟨l, t⟩ := p
+    rw [hl] at h
+    simp only [Except.ok.injEq] at h
+    subst h
+    exact ⟨rfl, rfl, rfl⟩
+
+/-- the canonical files of the loaded scripts -/
+def nodesOf (r : Result) : List Nat := r.loaded.map (·.node)
+
+/-! ## exactly once -/
+
+/-- **Once.** No canonical file is loaded twice, however often and through whatever names,
+symlinks or overlapping locations it is reached. -/
+theorem loaded_once (fs : FS) (cfg : Cfg) (locs : List Dir) (r : Result)
+    (h : load fs cfg locs = .ok r) : (nodesOf r).Nodup :=
+  (loadLoop_ok_inv fs cfg _ [] r.loaded r.twice (load_ok h).1).2.1
+
+/-- **Nothing else.** Every loaded script comes from a revision file (by the documented
+rules) that is present in the configured locations. -/
+theorem loaded_sound (fs : FS) (cfg : Cfg) (locs : List Dir) (r : Result) (hroots : RootsOk locs)
+    (h : load fs cfg locs = .ok r) : ∀ n ∈ nodesOf r, Expected fs cfg locs n := by
+  intro n hn
+  obtain ⟨s, hs, rfl⟩ := List.mem_map.mp hn
+  obtain ⟨_, _, h3, _⟩ := loadLoop_ok_inv fs cfg _ [] r.loaded r.twice (load_ok h).1
+  obtain ⟨hlisted, hf⟩ := h3 s hs
+  exact ⟨(listed_iff_reached cfg locs hroots s.node).mp hlisted,
+    accepts_isRevFile fs cfg s.node ((fromFilename_some fs cfg s.node s).mp hf).1⟩
+
+/-- Each script carries the revision id its file defines. -/
+theorem ids_right (fs : FS) (cfg : Cfg) (locs : List Dir) (r : Result)
+    (h : load fs cfg locs = .ok r) : ∀ s ∈ r.loaded, definesId fs s.node = some s.rev := by
+  intro s hs
+  obtain ⟨_, _, h3, _⟩ := loadLoop_ok_inv fs cfg _ [] r.loaded r.twice (load_ok h).1
+  exact ((fromFilename_some fs cfg s.node s).mp (h3 s hs).2).2.2
+
+/-- No reached file has a name that starts with `__init__` without being the module `__init__`. -/
+def NoInitPrefixed (fs : FS) (cfg : Cfg) (locs : List Dir) : Prop :=
+  ∀ n, Reached cfg locs n → startsWith initPrefix (fs.node n).name = true →
+    isInitModule (fs.node n).name = true
+
+/-- **Every one** — full-strength statement: every revision file present in the configured
+locations is loaded. -/
+def loaded_complete_statement : Prop :=
+  ∀ (fs : FS) (cfg : Cfg) (locs : List Dir) (r : Result), RootsOk locs →
+    load fs cfg locs = .ok r → ∀ n, Expected fs cfg locs n → n ∈ nodesOf r
+
+/-- the witness: one version location `va` holding `__init__x.py` (revision `r1`) -/
+def witnessFS : FS :=
+  { node := fun _ => { dir := 0, name := "__init__x.py".toList, content := .rev ['r', '1'] }
+    exists_ := fun _ _ => false }
+def witnessLocs : List Dir := [⟨"va".toList, [⟨"__init__x.py".toList, 0⟩], .nil⟩]
+def witnessCfg : Cfg := { sourceless := false, recursive := false }
+
+/-- The unchanged code violates it: a file whose name merely starts with `__init__` is
+silently skipped (finding C19-F13; the same witness is replayed on the implementation). -/
+theorem loaded_complete_counterexample : ¬ loaded_complete_statement := by
+  intro hst
+  have hl : load witnessFS witnessCfg witnessLocs = .ok ⟨[], [], [], []⟩ := by decide
+  have hroots : RootsOk witnessLocs := by
+    intro r hr
+    simp only [witnessLocs, List.mem_singleton] at hr
+    subst hr
+    decide
+  have hexp : Expected witnessFS witnessCfg witnessLocs 0 := by
+    refine ⟨⟨_, List.mem_singleton.mpr rfl, _, .root (by decide), Or.inl ⟨_, List.mem_singleton.mpr rfl, rfl⟩⟩, by decide⟩
+  have := hst witnessFS witnessCfg witnessLocs _ hroots hl 0 hexp
+  simp [nodesOf] at this
+
+/-- **Every one** — what holds of the unchanged code: every revision file present in the
+configured locations is loaded, *provided* no reached file name starts with `__init__`
+other than the module `__init__` itself. -/
+theorem loaded_complete_partial (fs : FS) (cfg : Cfg) (locs : List Dir) (r : Result)
+    (hroots : RootsOk locs) (hinit : NoInitPrefixed fs cfg locs)
+    (h : load fs cfg locs = .ok r) : ∀ n, Expected fs cfg locs n → n ∈ nodesOf r := by
+  intro n ⟨hreach, hrev⟩
+  obtain ⟨_, _, _, h4⟩ := loadLoop_ok_inv fs cfg _ [] r.loaded r.twice (load_ok h).1
+  obtain ⟨e, he, hn⟩ := (listed_iff_reached cfg locs hroots n).mpr hreach
+  have hnotinit : startsWith initPrefix (fs.node n).name = false := by
+    cases hp : startsWith initPrefix (fs.node n).name with
+    | false => rfl
+    | true =>
+      have hi := hinit n hreach hp
+      unfold isRevFile at hrev
+      simp [hi] at hrev
+  have hacc : accepts fs cfg e.node = true := by
+    rw [hn]; exact isRevFile_accepts fs cfg n hrev hnotinit
+  obtain ⟨s, hs, hsn⟩ := h4 e he (by simp) hacc
+  exact List.mem_map.mpr ⟨s, hs, by rw [hsn, hn]⟩
+
+/-- **Exactly once** (partial form, see `loaded_complete_counterexample`): the loaded canonical
+files are exactly the expected ones, each once. -/
+theorem exact_partial (fs : FS) (cfg : Cfg) (locs : List Dir) (r : Result)
+    (hroots : RootsOk locs) (hinit : NoInitPrefixed fs cfg locs) (h : load fs cfg locs = .ok r) :
+    (∀ n, n ∈ nodesOf r ↔ Expected fs cfg locs n) ∧ (nodesOf r).Nodup :=
+  ⟨fun n => ⟨loaded_sound fs cfg locs r hroots h n, loaded_complete_partial fs cfg locs r hroots hinit h n⟩,
+   loaded_once fs cfg locs r h⟩
+
+/-! ## failures are loud -/
+
+/-- If loading fails, some file that must be loaded cannot be: the error names it. -/
+theorem error_loud (fs : FS) (cfg : Cfg) (locs : List Dir) (x : Err) (hroots : RootsOk locs)
+    (h : load fs cfg locs = .error x) :
+    ∃ n, Expected fs cfg locs n ∧ definesId fs n = none ∧ (x = .loadFailed n ∨ x = .noRevisionId n) := by
+  unfold load at h
+  cases hl : loadLoop fs cfg (allListed cfg locs) [] with
+  | ok p => rw [hl] at h; cases h
+  | error y =>
+    rw [hl] at h
+    simp only [Except.error.injEq] at h
+    subst h
+    obtain ⟨e, he, hf⟩ := loadLoop_error fs cfg _ [] y hl
+    obtain ⟨hacc, hdef, hy⟩ := (fromFilename_error fs cfg e.node y).mp hf
+    refine ⟨e.node, ⟨(listed_iff_reached cfg locs hroots e.node).mp ⟨e, he, rfl⟩, accepts_isRevFile fs cfg e.node hacc⟩, hdef, ?_⟩
+    rw [hy]
+    unfold loadErr
+    cases (fs.node e.node).content <;> simp
+
+/-- If every file that must be loaded can be, loading succeeds. -/
+theorem loads_when_loadable (fs : FS) (cfg : Cfg) (locs : List Dir) (hroots : RootsOk locs)
+    (hok : ∀ n, Expected fs cfg locs n → definesId fs n ≠ none) : ∃ r, load fs cfg locs = .ok r := by
+  cases h : load fs cfg locs with
+  | ok r => exact ⟨r, rfl⟩
+  | error x =>
+    obtain ⟨n, hexp, hdef, _⟩ := error_loud fs cfg locs x hroots h
+    exact absurd hdef (hok n hexp)
+
+/-! ## duplicate revision ids are reported -/
+
+/-- **Duplicates reported.** A "Revision X is present more than once" warning is produced
+if and only if two *different* loaded files define the id X. -/
+theorem dup_id (fs : FS) (cfg : Cfg) (locs : List Dir) (r : Result) (h : load fs cfg locs = .ok r) (x : Name) :
+    x ∈ r.dupWarn ↔
+      ∃ n ∈ nodesOf r, ∃ m ∈ nodesOf r, n ≠ m ∧ definesId fs n = some x ∧ definesId fs m = some x := by
+  obtain ⟨_, _, hw⟩ := load_ok h
+  rw [hw, revMapLoop_warn x r.loaded []]
+  simp only [List.not_mem_nil, if_false]
+  rw [two_le_cnt_iff x r.loaded (loaded_once fs cfg locs r h)]
+  have hid := ids_right fs cfg locs r h
+  constructor
+  · rintro ⟨s, hs, t, ht, hne, hsx, htx⟩
+    refine ⟨s.node, List.mem_map.mpr ⟨s, hs, rfl⟩, t.node, List.mem_map.mpr ⟨t, ht, rfl⟩, hne, ?_, ?_⟩
+    · rw [hid s hs, hsx]
+    · rw [hid t ht, htx]
+  · rintro ⟨n, hn, m, hm, hne, hdn, hdm⟩
+    obtain ⟨s, hs, rfl⟩ := List.mem_map.mp hn
+    obtain ⟨t, ht, rfl⟩ := List.mem_map.mp hm
+    refine ⟨s, hs, t, ht, hne, ?_, ?_⟩
+    · have := hid s hs; rw [hdn] at this; exact (Option.some.inj this).symm
+    · have := hid t ht; rw [hdm] at this; exact (Option.some.inj this).symm
+
+/-- The keys of the revision map are exactly the ids of the loaded scripts, each key once. -/
+theorem map_keys (fs : FS) (cfg : Cfg) (locs : List Dir) (r : Result) (h : load fs cfg locs = .ok r) :
+    (∀ x, x ∈ r.keys ↔ ∃ s ∈ r.loaded, s.rev = x) ∧ r.keys.Nodup := by
+  obtain ⟨_, hk, _⟩ := load_ok h
+  rw [hk]
+  refine ⟨fun x => ?_, revMapLoop_keys_nodup r.loaded [] List.nodup_nil⟩
+  rw [revMapLoop_keys x r.loaded []]
+  simp
+
+/-! ## non-vacuity -/
+
+/-- a layout exercising symlink de-duplication, `.py` over `.pyc`, `__init__.py`, a lock file and
+a duplicate id: the hypotheses of the theorems are satisfiable and the model loads what one expects -/
+def sampleFS : FS :=
+  { node := fun i =>
+      match i with
+      | 0 => { dir := 0, name := "a.py".toList, content := .rev ['a'] }
+      | 1 => { dir := 0, name := "a.pyc".toList, content := .rev ['z'] }
+      | 2 => { dir := 0, name := "__init__.py".toList, content := .noRev }
+      | 3 => { dir := 0, name := ".#a.py".toList, content := .broken }
+      | 4 => { dir := 1, name := "b.py".toList, content := .rev ['a'] }
+      | _ => { dir := 1, name := "c.pyc".toList, content := .rev ['c'] }
+    exists_ := fun d n => (d == 0 && n == "a.py".toList) }
+def sampleLocs : List Dir :=
+  [⟨"va".toList, [⟨".#a.py".toList, 3⟩, ⟨"__init__.py".toList, 2⟩, ⟨"a.py".toList, 0⟩, ⟨"a.pyc".toList, 1⟩, ⟨"ln.py".toList, 4⟩],
+      .cons "sub".toList [⟨"b.py".toList, 4⟩, ⟨"c.pyc".toList, 5⟩] .nil .nil⟩]
+
+example : load sampleFS ⟨true, true⟩ sampleLocs =
+    .ok ⟨[⟨0, ['a']⟩, ⟨4, ['a']⟩, ⟨5, ['c']⟩], [4], [['a'], ['c']], [['a']]⟩ := by decide
+example : RootsOk sampleLocs := by
+  intro r hr; simp only [sampleLocs, List.mem_singleton] at hr; subst hr; decide
+example : (judge sampleFS ⟨true, true⟩ sampleLocs [(0, ['a']), (4, ['a']), (5, ['c'])] [['a'], ['c']] [['a']]).holds = true := by decide
+/-- the recogniser rejects an output that skips a file, loads one twice, or hides the duplicate -/
+example : (judge sampleFS ⟨true, true⟩ sampleLocs [(0, ['a']), (5, ['c'])] [['a'], ['c']] []).allExpected = false := by decide
+example : (judge sampleFS ⟨true, true⟩ sampleLocs [(0, ['a']), (4, ['a']), (4, ['a']), (5, ['c'])] [['a'], ['c']] [['a']]).once = false := by decide
+example : (judge sampleFS ⟨true, true⟩ sampleLocs [(0, ['a']), (4, ['a']), (5, ['c'])] [['a'], ['c']] []).dupReported = false := by decide
+example : (judge sampleFS ⟨true, true⟩ sampleLocs [(1, ['z']), (4, ['a']), (5, ['c'])] [['z'], ['a'], ['c']] []).onlyExpected = false := by decide
 
 end C19
